@@ -34,9 +34,15 @@ def _subst(expr_text, defs):
 
 
 def _local_defs(loop):
-    """single-assignment locals defined inside the loop body from simple expressions (key = f(x))"""
+    """single-assignment locals defined inside the loop body (or an enclosing loop's body) from simple expressions (key = f(x))"""
     defs, seen = {}, {}
-    for n in ast.walk(loop):
+    top = loop
+    p = getattr(loop, "_parent", None)
+    while p is not None and not isinstance(p, (ast.FunctionDef, ast.AsyncFunctionDef)):
+        if isinstance(p, ast.For):
+            top = p
+        p = getattr(p, "_parent", None)
+    for n in ast.walk(top):
         if isinstance(n, ast.Assign) and len(n.targets) == 1 and isinstance(n.targets[0], ast.Name):
             seen[n.targets[0].id] = seen.get(n.targets[0].id, 0) + 1
             defs[n.targets[0].id] = unparse(n.value)
@@ -114,6 +120,7 @@ def find_scans(fn):
             sc = Scan(fn, loop, b, arm, a, key, flipped, strict)
             sc.not_updated = not_updated
             sc.defs = defs
+            sc.coll = _subst(unparse(loop.iter), defs)
             sc.init = infs[b]
             # stored value
             for s in arm.body:
